@@ -677,3 +677,4 @@ def run(rep):
     rep.floor("MATCH-AHEAD", 3)
     rep.exhaustive = True
     rep.assumptions.append("the Pratt skeleton recognised (nud; loop{peek; break-test; led}) is the textbook one: its parameters then fix precedence and associativity")
+    rep.assumptions.append("the tokeniser evaluation covers 144 probe conditions: agreement with the token grammar is established on these probes only; T-KEYWORD and the char-class rules decide the shapes they recognise")
